@@ -284,10 +284,8 @@ fn write_back(path: &Path, content: &str) -> Result<()> {
 }
 
 fn is_hidden(entry: &DirEntry) -> bool {
-    entry
-        .file_name()
-        .to_str()
-        .is_some_and(|s| s.starts_with('.'))
+    // Look at the bytes: a name that is not valid Unicode can be hidden as well.
+    entry.file_name().as_encoded_bytes().starts_with(b".")
 }
 
 fn num_files(num: usize) -> String {
